@@ -125,7 +125,7 @@ func (r *Run) checkAccess(p Ptr, n int64, write bool) {
 		if p.Obj.Frozen {
 			r.fail("write-frozen", "store into read-only object", p.String())
 		}
-		if r.monitor && !p.Obj.Owned {
+		if r.monitor && !p.Obj.Owned && !r.atomicOp {
 			r.monitorWrite(p)
 		}
 	}
